@@ -17,6 +17,7 @@ CLAIMS = {
  'C06': "Proof (Coq, axiom-free) about the dense specification d_apply_operation: union/intersection validity rule, value = fold in list order over exactly the valid inputs (a left-identity seed drops out), identities of the seeds of every named operation on the executable element functions, refutation of the seed 0 for max. The layout-level model of operations._apply_operation is executable and compared, with the specification, against the implementation on every run (2-4 maps, every numeric dtype, differing sentinels, wide masks, all coverage geometries, all 18 public functions); its L1->L0 refinement proof is open (partial).",
  'C07': "Proof (Coq, axiom-free): for every well-formed source (any block order), every r dividing nfine and every reduction function, coarse pixel q of degrade holds the reduction of exactly the children [q*r,(q+1)*r) (values and aligned weights) when covered and the output sentinel otherwise; layout and coverage mask preserved; a group with no valid child reduces to the sentinel for the NaN-masked reductions. Correspondence: every kind x reduction x resolution on both sides of the coverage resolution, weights with other block orders, source and weights re-observed after the call.",
  'C08': "Proof (Coq, axiom-free): what a range array contains; the coverage pixels reserved by the slice path are a superset of the needed ones; one slice-wise operation changes exactly the cells of its slice; every alignment of a single range on a 48-pixel map for replace/add decided completely by computation. The full slice path (Ops.update_ranges) is executable and compared with the explicit-pixel dense update on every run for all kinds, operations, None, thresholds and edge alignments; the general composition proof is open (partial).",
+ 'C09': "Proof (Coq, axiom-free): in the model every operation is a function from the states of its arguments to the state of its result, and binding a result to a handle leaves the state of every other handle untouched (frame theorems for the interpreter's world and for the single-argument producers); non-interference of the IMPLEMENTATION is therefore exactly its agreement with that functional model along two-phase histories, which is checked on every run: for every producer (copy, scalar/boolean operators, astype, as_bit_packed_map, degrade incl. same-nside and weighted, upgrade, apply_mask copy, get_single copy, get_single_covpix_map, union/intersection operations, write+read) the arguments are re-observed after the call, after the result was modified and grown (incl. its metadata dict), and the result after the arguments were modified and grown. Partial: sharing is not modelled by a store-passing heap; aliasing defects are detected by the correspondence, not excluded by a theorem about the code.",
  'C11': "Proof (Coq, axiom-free): invert and the operators with a boolean constant refine the dense coverage-scoped map (L1->L0), keep the layout, double inversion is the identity; the dense specification of a op b has the documented outside/inside/coverage-union semantics, commutativity, De Morgan and absorption where both coverages apply; the executable cell functions satisfy the hypotheses. The block-copy model of the map-with-map operators (in place and copying) is compared with the specification on every run (packed/unpacked mixes, all coverage relations, chains); its refinement proof is open (partial).",
  'C12': "Proof (Coq, axiom-free): scalar operators change exactly the valid pixels (pointwise and as refinement of the dense map) and keep the layout; apply_mask never fails on a well-formed map and invalidates exactly the valid pixels the mask selects; astype / single-field copy / as_bit_packed_map refine the dense conversion and keep the layout. Correspondence: every numeric dtype/sentinel, operators in place and copying, masks (integer and wide) with bit selections, cached count queried around apply_mask.",
  'C13': "Proof (Coq, axiom-free): the packed value of a bit list has exactly the listed bits; set_bits is union, clear_bits is difference below the width, check_bits is the intersection test, valid iff non-empty; the reported width holds every requested bit and a geometry's width holds its largest bit. Lifted to maps by C01 (or/and updates are pointwise folds). Correspondence: widths 1..65 bits, bits around every byte boundary, oversize bits rejected with ValueError leaving the map unchanged, every interesting bit of every pixel checked after every step.",
